@@ -2,6 +2,7 @@ package c10
 
 import (
 	"os"
+	"strings"
 	"testing"
 
 	"verif/harness"
@@ -54,6 +55,21 @@ func TestProbes(t *testing.T) {
 			n, _ = o.Received.Get("n")
 		}
 		return o.StubCalls == 1 && n.Canon() != value.Int(1<<40).Canon(), "payload {n: 1099511627776 (Int), u: 1099511627776 (UInt)}: the service method received " + o.Received.Canon()
+	})
+	rt.Probe("C10-oneof-alternative-collides-with-message-field", func() (bool, string) {
+		// a message with two OneOf attributes whose alternatives share a name (and a number with a plain field)
+		un := func(tag int) *m.Attr {
+			return &m.Attr{Type: &m.Type{Kind: m.Union, Fields: []*m.Field{{Name: "alt_a", Attr: m.Prim(m.String), Tag: tag}, {Name: "alt_b", Attr: m.Prim(m.Int64), Tag: tag + 1}}}}
+		}
+		d := &m.Design{API: m.API{Name: "probe", Server: true}, Services: []*m.Service{
+			{Name: "probe", HasGRPC: true, Methods: []*m.Method{{Name: "m", GRPC: &m.GRPCEndpoint{},
+				Payload: rt.Obj(&m.Field{Name: "u1", Attr: un(2)}, &m.Field{Name: "u2", Attr: un(4)}, &m.Field{Name: "x", Attr: m.Prim(m.String), Tag: 1})}}},
+			{Name: "health", HasHTTP: true, Methods: []*m.Method{{Name: "ping", HTTP: &m.HTTPEndpoint{Routes: []m.Route{{Verb: "GET", Path: "/ping"}}}}}}}}
+		out := sess.GenerateAndCompile(d, false)
+		if !out.Accepted && out.Failure == "" {
+			return false, "design rejected by goa: " + strings.Join(out.Rejected, "; ")
+		}
+		return out.Failure == "gen-error" && strings.Contains(out.Detail, "used twice"), "two OneOf attributes with alternatives of the same name in one message: " + firstLines(out.Describe(), 2)
 	})
 	rt.Probe("C10-empty-required-collection-reported-missing", func() (bool, string) {
 		o := do("coll", value.Object(f("tags", value.Array()), f("x", value.Str("a"))))
